@@ -80,6 +80,7 @@ class CaseCtx:
         self.counters: dict[str, int] = {}
         self.rejected = False
         self.notes: list[str] = []
+        self.sub_evaluations = 0
 
     # evidence -------------------------------------------------------------
     def label(self, *names: str) -> None:
@@ -90,6 +91,12 @@ class CaseCtx:
         blob = json.dumps(fingerprint, sort_keys=True, default=str)
         self.fingerprints.append(
             hashlib.blake2b(blob.encode(), digest_size=8).hexdigest())
+
+    def evaluated(self, n: int = 1) -> None:
+        """One generated case often carries many oracle evaluations (reads of
+        one dataset, faults on one dataset, crash states of one session,
+        schedules of one configuration): count them as evaluations."""
+        self.sub_evaluations += n
 
     def count(self, name: str, n: int = 1) -> None:
         self.counters[name] = self.counters.get(name, 0) + n
@@ -118,6 +125,7 @@ class CaseCtx:
             "counters": self.counters,
             "rejected": self.rejected,
             "notes": self.notes[:5],
+            "sub_evaluations": self.sub_evaluations,
         }
 
 
